@@ -126,6 +126,7 @@ class Runner:
               'ref': list(ref), 'raised': '', 'strand': -1, 'frags': [], 'calls': [], 'n_frags_offered': len(mol['frags']),
               'pre': mol.get('pre', ''), 'refobj': mol.get('refobj', 'fasta'), 'history': mol.get('history', 'once'),
               'post': mol.get('post', 'none'), 'post_raised': '',
+              'dr1': (mol.get('dove') or [0, 0])[0], 'dr2': (mol.get('dove') or [0, 0])[1], 'dove_given': mol.get('dove') is not None,
               'gen': json.dumps({'tags': mol.get('tags', {}), 'frag_kwargs': mol.get('frag_kwargs', {}),
                                  'unmap': mol.get('unmap', [])})}
         m, requeried = None, None
@@ -143,9 +144,12 @@ class Runner:
                 frags.append(fcls([r1, r2], **mol.get('frag_kwargs', {})))
             refobj = self.cached if mol.get('refobj') == 'cached' else self.fa
             hist = mol.get('history', 'once')
+            mk = {}
+            if mol.get('dove') is not None:     # non-default dove distances, as tapsTabulator / bam_to_methylation_bw pass them
+                mk = {'methylation_consensus_kwargs': {'dove_R1_distance': mol['dove'][0], 'dove_R2_distance': mol['dove'][1]}}
             if hist == 'incremental':
                 # history: start empty, finalise on the first fragment, extend, finalise again (no stale calls / tags may survive)
-                m = mcls(None, reference=refobj, taps=self.taps, taps_strand=mol['conv'])
+                m = mcls(None, reference=refobj, taps=self.taps, taps_strand=mol['conv'], **mk)
                 m.add_fragment(frags[0])
                 m.__finalise__()
                 for fr in frags[1:]:
@@ -153,14 +157,14 @@ class Runner:
                 if len(frags) > 1:
                     m.__finalise__()
             elif len(frags) == 1 and tid % 2:
-                m = mcls(frags[0], reference=refobj, taps=self.taps, taps_strand=mol['conv'])   # a bare fragment, not a list
+                m = mcls(frags[0], reference=refobj, taps=self.taps, taps_strand=mol['conv'], **mk)   # a bare fragment, not a list
                 m.__finalise__()
             else:
-                m = mcls(frags, reference=refobj, taps=self.taps, taps_strand=mol['conv'])
+                m = mcls(frags, reference=refobj, taps=self.taps, taps_strand=mol['conv'], **mk)
                 m.__finalise__()
             if hist == 'requery':
                 # the other return path: the dictionary returned by a second obtain_methylation_calls()
-                requeried = m.obtain_methylation_calls()
+                requeried = m.obtain_methylation_calls(**m.get_consensus_dictionaries_kwargs)   # as __finalise__ calls it
         except Exception as ex:  # a crash of the code under test on a legal input is an observation
             ev['raised'] = type(ex).__name__
             ev['raised_msg'] = str(ex)[:200]
@@ -406,7 +410,9 @@ def random_molecule(rng, k):
     mol = {'src': 'random', 'cls': cls, 'conv': conv, 'contig': 'r%d' % k, 'ref': ref_s, 'frags': frags,
            'tags': {'lh': 'TA'} if cls == 'chic' else {}, 'refobj': rng.choice(['fasta', 'cached']),
            'history': rng.choice(['once', 'once', 'incremental', 'requery']),
-           'post': rng.choice(['none', 'write_tags', 'pseudo'])}
+           'post': rng.choice(['none', 'write_tags', 'pseudo']),
+           # default (no kwargs), explicit zeros, small, the tabulators' 8, asymmetric
+           'dove': rng.choice([None, None, None, [0, 0], [1, 1], [1, 0], [0, 1], [2, 3], [8, 8], [0, 8], [8, 1]])}
     if rng.random() < 0.02:
         # half-mapped pair (mate 2 unmapped): outside the statement's quantifier, recorded as an observation only
         pairs = [i for i, f in enumerate(frags) if len(f['reads']) == 2]
@@ -452,7 +458,8 @@ def scenario_molecule(scn, k, src):
             'frag_kwargs': {'check_motif': False} if cls == 'nla' else {},
             'refobj': ('fasta', 'cached')[(k // 3) % 2],
             'history': ('once', 'incremental', 'requery')[(k // 6) % 3],
-            'post': ('none', 'write_tags', 'pseudo')[(k // 18) % 3]}
+            'post': ('none', 'write_tags', 'pseudo')[(k // 18) % 3],
+            'dove': [scn['dr1'], scn['dr2']] if (scn.get('dr1') or scn.get('dr2') or k % 2) else None}
 
 
 def replay_event(ev_path, out):
@@ -465,7 +472,7 @@ def replay_event(ev_path, out):
                      for f in ev['frags']],
            'tags': gen.get('tags', {}), 'frag_kwargs': gen.get('frag_kwargs', {}), 'unmap': gen.get('unmap', []),
            'pre': ev.get('pre', ''), 'refobj': ev.get('refobj', 'fasta'), 'history': ev.get('history', 'once'),
-           'post': ev.get('post', 'none')}
+           'post': ev.get('post', 'none'), 'dove': [ev.get('dr1', 0), ev.get('dr2', 0)] if ev.get('dove_given') else None}
     contigs = [(mol['contig'], mol['ref'])]
     fasta = os.path.join(os.getcwd(), 'taps_replay_%d.fa' % os.getpid())
     write_fasta(fasta, contigs)
